@@ -16,6 +16,8 @@ RULE = ("One real instance with 1..3 AsyncServiceBrowsers (1..2 unrelated types 
         "point Added-not-Removed == cached PTR aliases (case-insensitive); inside add_service the cache already holds "
         "the PTR and the rest of the datagram. The four exclusions of the property are respected by the generator. "
         "Non-trivial = at least two non-suppressed response datagrams and at least one browser callback.")
+DISTINCT_RULE = ("Distinct = distinct digests of the full event log (datagram contents, delivery instants, callbacks) "
+                 "among non-trivial runs: the property quantifies over histories.")
 ASSUMPTIONS = [
     "PTR owner names are spelled exactly as the browsed type; no two names differing only in case inside one datagram; "
     "browsers are not created while an expired-but-unpurged PTR of their types is cached (the property's stated exclusions)",
@@ -31,7 +33,7 @@ def generate(rng, tier):
             "flush_p": rng.choice([0.0, 0.3]), "ptr_flush_p": rng.choice([0.0, 0.1, 0.3]),
             "repeat_p": rng.choice([0.0, 0.3]),
             "ttls": rng.choice([cl.TTLS, [0, 1, 2, 1125], [0, 60, 1124, 4500], [0, 0, 1, 4500], [0, 1200, 4500]])}
-    n = rng.choice([2, 3, 5, 8, 12, 20, 40])
+    n = rng.choice([2, 3, 5, 8, 12, 20, 40] + ([60, 100] if tier == "thorough" else []))
     ops = []
     t = 0.01
     last_ttls = []
